@@ -49,6 +49,10 @@ def check(ctx):
     rows = R.run_kind(ctx, 'chains')
     R.compare(ctx, rows, proj_ctx, 'C09 context markers through chains', oracle=oracle_ctx, nontrivial=lambda c, gd: gd.get('trace', '-') != '-')
     C04_more.parts_C09(ctx)
+    # FloorWithPrecision / CeilWithPrecision for every magnitude of `places` (moderate, the chunked big.Float paths beyond 308, the
+    # infinite ones) and inputs whose result overflows: every value comes out with the context it was sent with (kind=precision ctxrun=1)
+    prows = [r for r in R.run_kind(ctx, 'precision', shards=2) if ' ctxrun=1' in r[0]]
+    R.compare(ctx, prows, proj_all, 'C09 contexts through FloorWithPrecision / CeilWithPrecision (all magnitudes of places)', nontrivial=lambda c, gd: True, max_report=2)
     # the re-subscribing operators (Retry*, RepeatWith, While*, DoWhile*, Catch, OnErrorResumeNextWith, Concat): the context of every
     # delivered notification - the values of each attempt, the last error, and the cancellation error Retry delivers when the subscription
     # context is cancelled before / during an attempt / during the delay (it carries the SUBSCRIPTION context) - over the runs of
